@@ -9,8 +9,7 @@ MANIFEST = {
     "note": "Trusted: Lean kernel; model (differential tie); the reference DC's reading of C706 / MS-RPCE / MS-GKDI; the security context is the toy one (thorough: real NTLM from pyspnego); Kerberos / Negotiate are not run (no KDC) — partial in that respect",
     "technique": "Lean 4 proof (refinement to a specified conversation + corollaries of C01–C03) + transcript correspondence against an independent reference DC",
 }
-THEOREMS_TODO = ["DpapiNg.C17.getKey_request_unprotect", "DpapiNg.C17.getKey_request_protect", "DpapiNg.C17.request_is_sealed_with_vt",
-            "DpapiNg.C17.eptMap_request", "DpapiNg.C17.online_unprotect_correct"]
+THEOREMS = ["DpapiNg.C17.getKey_request_unprotect", "DpapiNg.C17.getKey_request_protect", "DpapiNg.C17.request_is_sealed_with_vt", "DpapiNg.C17.verification_trailer_value", "DpapiNg.C17.eptMap_request", "DpapiNg.C17.online_unprotect_correct", "DpapiNg.C17.online_unprotect_public_key_is_error"]
 RULE = ("online unprotect of blobs at positions {(31,31),(17,13),(0,0),(5,31),(31,0)} and online protect at DC 'now' positions, 4 hashes × {seed-key reply, DH / ECDH_P256 / ECDH_P384 "
         "public-key reply}, SIDs with 1..15 sub-authorities (every SD length residue mod 8), domain / forest name lengths 0..11 (reply length residues), signature sizes {16,28,60,76}, "
         "header signing supported / not, 2..3 auth legs, both API flavours; each case: captured PDUs vs the model's conversation, result vs plaintext, sync vs async transcript")
@@ -368,4 +367,3 @@ def replay(ctx, payload):
     for x in c2.violations:
         print(" ", x["what"], x["observed"])
     return not c2.violations
-THEOREMS = []
